@@ -27,6 +27,8 @@ func netCheck(c *vlib.Check) {
 			s = append(s, []bnet.Fault{{Kind: "stop", Node: i, AtRound: 2}, {Kind: "restart", Node: i, AtRound: 4}})
 			s = append(s, []bnet.Fault{{Kind: "cut", Node: i, Peer: (i + 1) % n, AtRound: 1}, {Kind: "uncut", Node: i, Peer: (i + 1) % n, AtRound: 3}})
 		}
+		// one database write of a node fails while the node keeps running
+		s = append(s, []bnet.Fault{{Kind: "dbfail", Node: 0, AtRound: 2}}, []bnet.Fault{{Kind: "dbfail", Node: n - 1, AtRound: 3}})
 		return s
 	}
 	type job struct {
@@ -47,11 +49,17 @@ func netCheck(c *vlib.Check) {
 			{crypto.DefaultSchemeID, 3, 2, []string{"memdb", "memdb", "memdb"}, 3, true, 1, nil, 0},
 			// V (node 0) two rounds behind its peers at start: sync and aggregation race on its store
 			{crypto.DefaultSchemeID, 3, 2, []string{"memdb", "memdb", "memdb"}, 3, false, 1, []uint64{2, 4, 4}, 5},
+			// the other schemes, mixed back-ends, one node behind: what it syncs (from a bolt or a memdb peer) must be
+			// byte-identical with what the others aggregated
+			{crypto.ShortSigSchemeID, 3, 2, []string{"memdb", "bolt-trimmed", "memdb"}, 3, false, 0, []uint64{2, 4, 4}, 5},
+			{crypto.SigsOnG1ID, 3, 2, []string{"memdb", "bolt-trimmed", "memdb"}, 3, false, 0, []uint64{2, 4, 4}, 5},
+			{crypto.BN254UnchainedOnG1SchemeID, 3, 2, []string{"memdb", "bolt-trimmed", "memdb"}, 3, false, 0, []uint64{2, 4, 4}, 5},
 		}
 	} else {
 		for _, sc := range crypto.ListSchemes() {
 			js = append(js, job{sc, 3, 2, []string{"memdb", "bolt-trimmed", "bolt-untrimmed"}, 6, false, 1, nil, 0})
 			js = append(js, job{sc, 3, 2, []string{"memdb", "memdb", "memdb"}, 3, false, 2, []uint64{2, 4, 4}, 5})
+			js = append(js, job{sc, 3, 2, []string{"memdb", "bolt-trimmed", "memdb"}, 3, false, 1, []uint64{2, 4, 4}, 5})
 		}
 		js = append(js, job{crypto.DefaultSchemeID, 4, 3, []string{"memdb", "memdb", "memdb", "memdb"}, 6, false, 1, nil, 0})
 		js = append(js, job{crypto.DefaultSchemeID, 3, 2, []string{"memdb", "memdb", "memdb"}, 4, true, 2, nil, 0})
